@@ -312,6 +312,16 @@ def run(prop, tier, seed):
            "replies": len(corpus), "liveness": live, "enabled_deviations": devs,
            "known_finding_cases": {d: len(v) for d, v in known.items()}, "violating_cases": len(viols),
            "trusted_base": ["harness/ms_impl.py scripted socket", "harness/ms_corpus.py reply generator"]}
+    if prop == "C09":
+        # NO / BYE / silence at each step of the multi-step operation (emulated rename): judged by MSStoreTrace
+        from . import c_ms_store
+        rc2, cov2 = c_ms_store.run("C09", tier, seed, write_evidence=False)
+        rc = max(rc, rc2)
+        cov["multi_step_rename"] = {k: cov2[k] for k in ("states", "traces_validated_against_impl", "violating_cases")}
+        cov["states"] += cov2["states"]
+        cov["transitions"] += cov2["transitions"]
+        cov["traces_validated_against_impl"] += cov2["traces_validated_against_impl"]
+        viols = viols + [None] * cov2["violating_cases"]
     evidence.write(prop, tier, seed, t0, cov, len(viols),
                    ["the corpus is finite: reply shapes outside it are not explored",
                     "literals in data lines only as first item of a line"])
